@@ -36,19 +36,19 @@ theorem DStop.micro : ∀ rt, MReach rt → ∀ s, DStopP s (getS rt s) rt.clien
   · intro s a ha rt hr hg h
     refine all_setS_cl DStopP rt s _ ?_ h
     intro he hm hF
-    rw [(src_keeps_script s a ha _).2] at he; rw [src_keeps_F s a ha] at hF
-    exact DStop.src s rt.client rt.state a ha _ hg (TInvAll.micro rt hr s) (DUse.micro rt hr s he hm) (h s he hm hF)
+    rw [src_keeps_F s a ha] at hF
+    exact DStop.src s rt.client rt.state a ha _ hg (TInvAll.micro rt hr s) (DUse.micro rt hr s (Here.intro _) hm) (h s (Here.intro _) hm hF)
   · intro s a ha rt hr hg h
     refine all_setS_cl DStopP rt s _ ?_ h
     intro he hm hF
-    rw [(flt_keeps_script a ha _).2] at he; rw [flt_keeps_F a ha] at hF
-    exact DStop.flt s rt.client rt.state a ha _ hg (TInvAll.micro rt hr s) (DUse.micro rt hr s he hm) (h s he hm hF)
+    rw [flt_keeps_F a ha] at hF
+    exact DStop.flt s rt.client rt.state a ha _ hg (TInvAll.micro rt hr s) (DUse.micro rt hr s (Here.intro _) hm) (h s (Here.intro _) hm hF)
   · intro s a ha rt hr hg h
     refine all_setS_cl DStopP rt s _ ?_ h
     intro he hm hF
-    rw [(snk_keeps_script s a ha _).2] at he; rw [snk_keeps_F s a ha] at hF
-    exact DStop.snk s rt.client rt.state a ha _ hg (TInvAll.micro rt hr s) (DUse.micro rt hr s he hm) (DEnd.micro rt hr s he hm hF)
-      (h s he hm hF)
+    rw [snk_keeps_F s a ha] at hF
+    exact DStop.snk s rt.client rt.state a ha _ hg (TInvAll.micro rt hr s) (DUse.micro rt hr s (Here.intro _) hm) (DEnd.micro rt hr s (Here.intro _) hm hF)
+      (h s (Here.intro _) hm hF)
   · intro a ha rt hr hg h
     exact client_families DStop.Kept DStop.client_base DStop.client_mon DStop.client_cfg DStop.client_start DStop.client_err
       DStop.client_stop DStop.client_acc DStop.client_flush a ha rt (TInvAll.micro rt hr) (DUse.micro rt hr) (DEnd.micro rt hr) hg h
